@@ -327,6 +327,7 @@ def doc_job(offset=0, hazard=None):
     a_ = edits.Api()
     edits.EDITS['request_from_other_file'](a_)
     edits.EDITS['nested_deep'](a_)
+    edits.EDITS['dep_pkg_types'](a_)          # an RPC whose request and response types come from a dependency package
     # fields declared in an order that differs from their numbers; an enum whose values are declared out of numeric order
     a_.msg(desc.message('Shuffled', [desc.field('name', 1, 'string'), desc.field('author', 4, 'string'), desc.field('title', 2, 'string'),
                                      desc.field('page_count', 3, 'int32'), desc.field('mood', 5, 'enum:.' + a_.main.package + '.Mood')]))
@@ -346,10 +347,23 @@ def doc_job(offset=0, hazard=None):
             kinds[full] = kind
             per_file[full] = (' ' + comments[full] + '\n', placed[full])
         desc.add_comments(f, per_file)
+    # the dependency package's messages carry comments too (protoc hands every file over with its source info); they are not
+    # emitted as classes, but the docstrings of the methods that take / return them quote them
+    for f in a_.dep_files:
+        per_file = {}
+        for kind, full, path in desc.element_paths(f):
+            if kind != 'message':
+                continue
+            i += 1
+            comments[full] = texts[(i * 37 + offset * 131) % len(texts)] if hazard is None else hazard[1]
+            placed[full] = 'leading'
+            kinds[full] = 'dep-message'
+            per_file[full] = (' ' + comments[full] + '\n', 'leading')
+        desc.add_comments(f, per_file)
     req = a_.request('transport=grpc+rest')
     desc.gate(req)
     jid = f'docwords{offset}' if hazard is None else f'dochazard:{hazard[0]}/{offset}'
-    return dict(id=jid, req=req.SerializeToString(), probe='mc.probes.docwords',
+    return dict(id=jid, req=req.SerializeToString(), probe='mc.probes.docwords', pb2_files=[f.SerializeToString() for f in a_.dep_files],
                 probe_args=dict(package=refnames.import_package(apis.P), proto_package=apis.P, comments=comments, kinds=kinds,
                                 places=placed)), len(texts)
 
